@@ -818,6 +818,24 @@ fn gen_mux(rng: &mut StdRng, n: usize, thorough: bool, ops: &mut Vec<Value>) {
         ops.push(json!({"op": "mux", "cfg": {"rfs": rfs, "rbs": rbs, "rfc": rfc}, "na": na, "nc": nc,
             "bytes": bytes_json(&bytes), "eof": rng.gen_bool(0.7)}));
     }
+    // floods of frames for ONE opened stream whose consumer is parked (the application never accepts / reads): control
+    // frames only, alternating OPEN / CLOSE / zero-length DATA, and mixed with small DATA frames; 64 kB .. 1 MiB of input
+    let prod = json!({"rfs": 16384, "rbs": 163840, "rfc": 100});
+    let small = json!({"rfs": 16, "rbs": 64, "rfc": 8});
+    let h = |k: u16| hdr(k, true, 0).to_vec();
+    let mut floods: Vec<(Value, Vec<u8>, u64, u64)> = vec![]; // (cfg, pattern, times, free bytes per repetition)
+    for cfg in [&prod, &small] {
+        floods.push((cfg.clone(), h(0x0000), 32 * 1024, 0));                                   // OPEN flood, 64 kB
+        floods.push((cfg.clone(), h(0x8000), 64 * 1024, 0));                                   // CLOSE flood, 128 kB
+        floods.push((cfg.clone(), [h(0x0000), h(0x8000)].concat(), 16 * 1024, 0));              // OPEN/CLOSE
+        floods.push((cfg.clone(), [h(0x0000), h(0x8000), h(0x4000), vec![0, 0]].concat(), 8 * 1024, 4)); // + DATA len 0
+        floods.push((cfg.clone(), [h(0x8000), h(0x4000), vec![3, 0, 7, 7, 7]].concat(), 8 * 1024, 0));   // + DATA len 3
+    }
+    floods.push((prod.clone(), h(0x8000), if thorough { 512 * 1024 } else { 128 * 1024 }, 0)); // 1 MiB (quick: 256 kB) of CLOSE headers
+    for (cfg, pat, times, free) in floods {
+        ops.push(json!({"op": "mux", "cfg": cfg, "na": 1, "nc": 0, "bytes": bytes_json(&h(0x0000)), "pat": bytes_json(&pat), "times": times,
+            "eof": false, "flood": true, "free_bytes": free * times}));
+    }
     // maximal DATA frames against the production config
     for len in [16383u16, 16384, 16385, 65535] {
         let mut bytes = hdr(0x0000, true, 0).to_vec();
@@ -1287,16 +1305,18 @@ impl C10 {
     }
 
     /// `Mux::run` (nobody reads) against a raw peer that completes the mux handshake and then writes `bytes`
-    fn exec_mux(&self, op: &Value) -> Value {
+    fn exec_mux(&self, op: &Value, out: &mut Out) -> Value {
         let c = &op["cfg"];
         let cfg = entry::MuxCfg {
             read_frame_size: c["rfs"].as_u64().unwrap(), read_buffer_size: c["rbs"].as_u64().unwrap(),
             read_frame_count: c["rfc"].as_u64().unwrap(), write_frame_size: 16384,
         };
         let (na, nc) = (op["na"].as_u64().unwrap() as u32, op["nc"].as_u64().unwrap() as u32);
-        let bytes = json_bytes(&op["bytes"]);
+        let mut bytes = json_bytes(&op["bytes"]);
+        let pat = json_bytes(&op["pat"]);
+        for _ in 0..op["times"].as_u64().unwrap_or(0) { bytes.extend_from_slice(&pat); }
         let eof = op["eof"].as_bool().unwrap_or(true);
-        self.rt.block_on(async {
+        let r = self.rt.block_on(async {
             let root = ctx::test_root(&ctx::ManualClock::new());
             let pipe = RawPipe::default();
             let done: Arc<Mutex<Option<String>>> = Arc::default();
@@ -1317,7 +1337,22 @@ impl C10 {
                 Ok(json!({"class": class, "consumed": pipe.consumed() - base}))
             }).await;
             res.unwrap_or_else(|_| json!({"class": "canceled"}))
-        })
+        });
+        // S (flood cases: after one OPEN every frame goes to that stream, whose consumer is parked; nothing is ever read by
+        // the application): the mux may take from the transport at most what the configured limits let it park —
+        // `read_frame_count` frames (header + length each) and `read_buffer_size` payload bytes — plus one frame in flight
+        // (its header, length and up to one piece) and whatever costs no permit at all (zero-length DATA frames).
+        if op["flood"].as_bool().unwrap_or(false) {
+            let consumed = r["consumed"].as_u64().unwrap_or(0);
+            let free = op["free_bytes"].as_u64().unwrap_or(0);
+            let limit = 2 + 4 * cfg.read_frame_count + cfg.read_buffer_size + 4 + cfg.read_frame_size + free;
+            if consumed > limit {
+                out.oracle_fail("mux:unbounded_buffering",
+                    &format!("mux accepted {consumed} bytes of unconsumed frames, limits allow at most {limit} (read_frame_count {} / read_buffer_size {})", cfg.read_frame_count, cfg.read_buffer_size),
+                    op.clone());
+            }
+        }
+        r
     }
 
     fn exec_muxhs(&self, op: &Value) -> Value {
@@ -2493,7 +2528,7 @@ impl Prop for C10 {
                 r
             }
             "read" | "wire" => { let o = &mut *out; let this = &*self; catch(move || this.exec_read(op, o)) }
-            "mux" => catch(|| self.exec_mux(op)),
+            "mux" => { let o = &mut *out; let this = &*self; catch(move || this.exec_mux(op, o)) }
             "muxhs" => catch(|| self.exec_muxhs(op)),
             "frame" => {
                 let o = &mut *out; let this = &*self;
